@@ -1,9 +1,11 @@
 package main
 
 import (
+	"context"
 	"errors"
 	"fmt"
 	"sync"
+	"sync/atomic"
 	"time"
 
 	"tunnox-core/internal/client/tunnel"
@@ -15,15 +17,26 @@ import (
 // the close body) turned into a gate and a counted clean-up action.
 type tmgr struct {
 	*tunnel.DefaultTunnelManager
-	r *tunnelRig
+	r     *tunnelRig
+	quiet bool // hammer: many tunnels on one manager, per-tunnel counts are logged by the hammer itself
 }
 
 func (m *tmgr) UnregisterTunnel(id string) bool {
 	m.r.s.Gate("unreg", nil)
-	m.r.rec.add(fw.Event{"ev": "Ran", "h": "unreg"})
+	if !m.quiet {
+		m.r.rec.add(fw.Event{"ev": "Ran", "h": "unreg"})
+	}
 	ok := m.DefaultTunnelManager.UnregisterTunnel(id)
 	m.r.s.After()
 	return ok
+}
+
+// Ctx is called by Tunnel.Start to obtain the parent of the tunnel's context: the seam at which the
+// driver parks a Start in progress (as coded: before SetCtx and the CAS to Connected).
+func (m *tmgr) Ctx() context.Context {
+	m.r.s.Gate("mgr.ctx", nil)
+	m.r.s.After()
+	return m.DefaultTunnelManager.Ctx()
 }
 
 type tunnelRig struct {
@@ -113,6 +126,9 @@ func (r *tunnelRig) finish() *fw.Trace {
 }
 
 func driveTunnel(beh behaviour, seed int64) *fw.Trace {
+	if beh.Op == "startclose" {
+		return driveTunnelHammer(beh, seed)
+	}
 	if beh.Free {
 		return driveTunnelFree(beh, seed)
 	}
@@ -138,6 +154,24 @@ func driveTunnel(beh behaviour, seed int64) *fw.Trace {
 		case "Eof":
 			r.local.injectEOF()
 			r.remote.injectEOF()
+		case "StartCall": // Tunnel.Start runs up to its call of manager.Ctx()
+			state := r.s.Start("start", func() any {
+				var err error
+				r.rec.guard("Start", func() { err = r.t.Start() })
+				return err
+			})
+			if !(state == sched.Parked && r.at("start") == "mgr.ctx") {
+				return r.unreal(i, "Start should be at manager.Ctx(), is %s", r.where("start"))
+			}
+		case "SetCtx": // ... and from there to its end (SetCtx, CAS, goroutines)
+			if !r.waitParkedAt("start", "mgr.ctx") {
+				return r.unreal(i, "Start is %s, model expects it at manager.Ctx()", r.where("start"))
+			}
+			if ns, _ := r.s.Step("start"); ns != sched.Done {
+				return r.unreal(i, "Start did not return (%s)", r.where("start"))
+			}
+		case "StartCas", "Spawn":
+			// no gate of its own
 		case "Load":
 			if st.P == "copy" {
 				if st.R {
@@ -238,4 +272,67 @@ func driveTunnelFree(beh behaviour, seed int64) *fw.Trace {
 		return &fw.Trace{Status: fw.DriverError, Note: "tunnel: free-running closers did not finish"}
 	}
 	return r.finish()
+}
+
+// driveTunnelHammer: Start racing with Close, free running, thousands of tunnels on one manager. Each
+// round registers a fresh tunnel, starts it in a goroutine and - after a seeded number of yields -
+// closes it the way one of the initiators would (explicit Close, peer notification, CloseAll, fatal
+// tunnel error). Per round the callback / unregister counts are logged (Round event); at the end, the
+// manager still open, whatever goroutine of any of the tunnels is still alive after the grace period
+// counts as left behind.
+func driveTunnelHammer(beh behaviour, seed int64) *fw.Trace {
+	r := &tunnelRig{base: newBase(true, seed)}
+	r.mgr = &tmgr{DefaultTunnelManager: tunnel.NewTunnelManager(r.ctx, tunnel.TunnelRoleListen), r: r, quiet: true}
+	rnd := fw.NewRand(seed ^ 0x57a7)
+	deadline := time.Now().Add(time.Duration(beh.Ms) * time.Millisecond)
+	for i := 0; i < beh.Rounds && time.Now().Before(deadline); i++ {
+		id := fmt.Sprintf("t-%d", i)
+		var cb atomic.Int32
+		local, remote := newMemConn("local"), newMemConn("remote")
+		t := tunnel.NewTunnel(&tunnel.TunnelConfig{
+			ID: id, MappingID: "pm-1", Role: tunnel.TunnelRoleListen, Protocol: "tcp",
+			LocalConn: local, TunnelRWC: remote, TargetClient: 0,
+			Manager: r.mgr, Client: nil,
+			OnClosed: func(reason tunnel.CloseReason, err error) { cb.Add(1) },
+		})
+		if err := r.mgr.RegisterTunnel(t); err != nil {
+			return &fw.Trace{Status: fw.DriverError, Note: err.Error()}
+		}
+		started := make(chan struct{})
+		go func() {
+			r.rec.guard("Start", func() { t.Start() })
+			close(started)
+		}()
+		for k := rnd.Intn(24); k > 0; k-- {
+			yield()
+		}
+		r.rec.guard("Close", func() {
+			switch i % 4 {
+			case 0:
+				t.Close(tunnel.CloseReasonNormal, nil)
+			case 1:
+				r.mgr.DefaultTunnelManager.OnTunnelClosed(id, "pm-1", "peer_closed", 0, 0, 0)
+			case 2:
+				r.mgr.DefaultTunnelManager.CloseAll()
+			case 3:
+				r.mgr.DefaultTunnelManager.OnTunnelError(id, "pm-1", "E", "fatal", false)
+			}
+		})
+		select {
+		case <-started:
+		case <-time.After(opTimeout):
+			r.rec.add(fw.Event{"ev": "Op", "op": "Start", "res": "hang"})
+		}
+		// the tunnel may have been closed before Start made it visible as started: close again (idempotent)
+		r.rec.guard("Close", func() { t.Close(tunnel.CloseReasonNormal, nil) })
+		local.injectEOF()
+		remote.injectEOF()
+		r.rec.add(fw.Event{"ev": "Round", "counts": map[string]any{"cb": int(cb.Load())}})
+	}
+	r.rec.add(fw.Event{"ev": "CloseCall", "p": "z"})
+	r.rec.add(fw.Event{"ev": "CloseRet", "p": "z"})
+	r.quiesce("tunnel", false, 0)
+	r.mgr.DefaultTunnelManager.Close()
+	r.cancel()
+	return r.trace("tunnel", false)
 }
